@@ -51,7 +51,7 @@ def norm_proto(pj):
 
 def schemas_of(root, pkg, ybin, inproc, rng, report, what, matlab=True, expanded_p=0.25, versions=None):
     """generate (python + cpp + matlab text only) and collect the schema literal of each protocol per source."""
-    d = vlib.write_package(root, pkg, rng, cpp=True, python=True, matlab=matlab, js=False, ndjson=False, expanded_p=expanded_p, versions=versions)
+    d = vlib.write_package(root, pkg, rng, cpp=True, python=True, matlab=matlab, js=False, ndjson=True, expanded_p=expanded_p, versions=versions)
     rc, out, err = vlib.yardl(ybin, d, "generate")
     if rc != 0:
         return None, f"generate failed: {err[-800:]}", d
